@@ -85,8 +85,8 @@ class S:
             return self.name()
         if k == 1:
             return "_" + self.pick(["", "x", "ignored"])
-        if k == 2:
-            return self.int_lit()
+        if k == 2:          # negative literals too, in every base and grouping (`-0xff`, `-100_000`)
+            return ("-" if self.chance(0.35) else "") + self.int_lit()
         if k == 3:
             return self.pick(UPNAMES)
         if k == 4:
